@@ -139,6 +139,7 @@ fn handler(req: Request) -> Response {
     }
     match path.as_str() {
         "/big" => Response::text(200, big_body()),
+        "/huge" => Response::text(200, "h".repeat(32 * 1024 * 1024)),
         "/up" => Response::text(200, format!("up-{}", req.body.len().unwrap_or(0))),
         _ => Response::text(200, "ok"),
     }
@@ -563,6 +564,40 @@ pub fn run_shutdown_emfile(ctx: &mut Ctx) {
     let cases: &[(usize, u64)] = if ctx.thorough() { &[(1, 0), (2, 100), (3, 300), (1, 450), (4, 600), (1, 4200), (2, 9000)] } else { &[(1, 0), (2, 300), (1, 4200)] };
     for (i, (n, d)) in cases.iter().enumerate() {
         if ctx.mine(i as u64 + 1) { case_shutdown_emfile(ctx, &n.to_string(), &d.to_string()); }
+    }
+}
+
+/// c08s: a client that stops reading in the middle of a large response for `secs` seconds and then resumes must still
+/// receive exactly that one response (a write that is slow is not a write that failed; nothing else may follow).
+pub fn case_stall(ctx: &mut Ctx, secs: &str) {
+    let s: u64 = secs.parse().unwrap();
+    let obs = guard(move || {
+        let srv = start(1);
+        let Some(mut c) = connect(srv.addr) else { return "noconn".to_string() };
+        let _ = c.set_read_timeout(Some(Duration::from_secs(20)));
+        let _ = c.write_all(b"GET /huge HTTP/1.1\r\n\r\n");
+        let mut acc: Vec<u8> = Vec::new();
+        let mut buf = vec![0u8; 65536];
+        while acc.len() < 200_000 { match c.read(&mut buf) { Ok(0) | Err(_) => break, Ok(k) => acc.extend_from_slice(&buf[..k]) } }
+        std::thread::sleep(Duration::from_secs(s));
+        let _ = c.shutdown(std::net::Shutdown::Write);
+        loop { match c.read(&mut buf) { Ok(0) | Err(_) => break, Ok(k) => acc.extend_from_slice(&buf[..k]) } }
+        let he = acc.windows(4).position(|w| w == b"\r\n\r\n").map_or(0, |p| p + 4);
+        let head = String::from_utf8_lossy(&acc[..he]).to_ascii_lowercase();
+        let status = head.split(' ').nth(1).unwrap_or("?").to_string();
+        let cl: usize = head.lines().find_map(|l| l.strip_prefix("content-length: ").map(|v| v.trim().parse().unwrap_or(0))).unwrap_or(0);
+        let body = acc.len().saturating_sub(he).min(cl);
+        let extra = acc.len().saturating_sub(he + cl);
+        let second_status = acc[he..].windows(9).any(|w| w == b"HTTP/1.1 ");
+        let stopped = stop(srv);
+        format!("status={status} declared={cl} body={body} extra={extra} second_status_line={} stopped={}", u8::from(second_status), u8::from(stopped))
+    });
+    ctx.emit("c08s", &[secs], &obs);
+}
+
+pub fn run_stall(ctx: &mut Ctx) {
+    for (i, secs) in [12u64, 1].iter().enumerate() {
+        if ctx.mine(i as u64) { case_stall(ctx, &secs.to_string()); }
     }
 }
 
